@@ -77,9 +77,14 @@ fn variable_values(op: &apollo_compiler::executable::Operation) -> apollo_compil
         let good: serde_json_bytes::Value = match base {
             "Int" => serde_json_bytes::json!(7), "Float" => serde_json_bytes::json!(2.5), "String" | "ID" => serde_json_bytes::json!("x"), "Boolean" => serde_json_bytes::json!(h % 2 == 0),
             "E" => serde_json_bytes::json!("B"), "In" => serde_json_bytes::json!({"a": 1, "b": ["q"], "c": {"b": []}}),
+            // the input object of the "five of everything" family: valid / five unknown keys / five fields of the wrong type
+            "I" => match h % 5 { 0 => serde_json_bytes::json!({"q0": 1, "q1": 2, "q2": 3, "q3": 4, "q4": 5}), 1 => serde_json_bytes::json!({"x0": "s", "x1": "s", "x2": "s", "x3": "s", "x4": "s"}),
+                _ => serde_json_bytes::json!({"x4": 4, "x0": 0, "y3": 3, "i": {"x1": 2, "l": [{"x2": 3}, {"y0": null}]}, "l": []}) },
             _ => serde_json_bytes::json!({"a": 1, "b": [1, 2]}),
         };
-        let val: serde_json_bytes::Value = match h % 14 {
+        // operations with many variables: fewer bad values per variable, so that some operations get through coercion
+        let sel = if op.variables.len() >= 8 { h % 56 } else { h % 14 };
+        let val: serde_json_bytes::Value = match sel {
             0 => continue,
             1 => serde_json_bytes::Value::Null,
             2 => serde_json_bytes::Value::String("wrong".into()),
@@ -211,6 +216,150 @@ fn outputs(schema_src: &str, doc_src: &str) -> Vec<(&'static str, String)> {
     out
 }
 
+
+// ---------------------------------------------------------------------------------------------------------
+// "Five of everything": hash-order dependence only shows where a collection has several entries, and with
+// four processes a two-entry collection agrees by chance one time in eight. Every collection the compiler keeps
+// (types of each kind, fields, arguments, directives and their arguments and locations, enum values, union
+// members, implemented interfaces, extensions, operations, variables, fragments, aliases, object-literal fields,
+// JSON variable objects) gets N >= 5 entries at once, and every kind of diagnostic is provoked N times in the
+// same input (N unused / undefined / duplicated / conflicting / cyclic … things), so that "which one is reported",
+// "in which order" and "how the offenders are listed in the message" all have N! ways to differ.
+pub const MULTI_VARIANTS: u64 = 44;
+const ALL_LOCS: &str = "QUERY | MUTATION | SUBSCRIPTION | FIELD | FRAGMENT_DEFINITION | FRAGMENT_SPREAD | INLINE_FRAGMENT | VARIABLE_DEFINITION | SCHEMA | SCALAR | OBJECT | FIELD_DEFINITION | ARGUMENT_DEFINITION | INTERFACE | UNION | ENUM | ENUM_VALUE | INPUT_OBJECT | INPUT_FIELD_DEFINITION";
+
+fn seq(n: usize, sep: &str, f: impl Fn(usize) -> String) -> String { (0..n).map(f).collect::<Vec<_>>().join(sep) }
+
+/// schema variant `sv` (0 = valid) and document variant `dv` (0 = valid)
+pub fn multi_texts(n: usize, sv: u64, dv: u64) -> (String, String) {
+    let mut s = String::new();
+    let rdirs = |k: usize| seq(k, "", |i| format!(" @r{i}(a{i}: {i})"));
+    // --- schema
+    write!(s, "schema{} {{ query: Query mutation: Mutation subscription: Subscription }}\n", rdirs(n)).unwrap();
+    for i in 0..n {
+        write!(s, "directive @r{i}({}) repeatable on {ALL_LOCS}\n", seq(n, ", ", |j| format!("a{j}: Int"))).unwrap();
+        write!(s, "directive @o{i}(x: Int, y: I) on {ALL_LOCS}\n").unwrap();
+        write!(s, "scalar S{i} @specifiedBy(url: \"https://s{i}\"){}\n", rdirs(2)).unwrap();
+    }
+    for i in 0..n {
+        let imp = if i == 0 { String::new() } else { format!(" implements {}", seq(i, " & ", |j| format!("N{j}"))) };
+        write!(s, "interface N{i}{imp}{} {{ id: ID {} }}\n", rdirs(2), seq(i + 1, " ", |j| format!("f{j}(p: Int = {j}): Int"))).unwrap();
+    }
+    for i in 0..n {
+        write!(s, "type T{i} implements {}{} {{ id: ID {} {} arg({}): Int u: U n: N0 e: E l: [T{i}!] req({}): Int }}\n",
+            seq(n, " & ", |j| format!("N{j}")), rdirs(n),
+            seq(n, " ", |j| format!("f{j}(p: Int = {j}): Int")), seq(n, " ", |j| format!("t{j}: T{j}")),
+            seq(n, ", ", |j| format!("a{j}: Int = {j}")), seq(n, ", ", |j| format!("r{j}: Int!"))).unwrap();
+    }
+    write!(s, "union U{} = {}\n", rdirs(2), seq(n, " | ", |j| format!("T{j}"))).unwrap();
+    write!(s, "enum E{} {{ {} B }}\n", rdirs(2), seq(n, " ", |j| format!("V{j} @r{j}(a0: 1) @deprecated(reason: \"d{j}\")"))).unwrap();
+    write!(s, "input I{} {{ {} i: I l: [I!] }}\n", rdirs(2), seq(n, " ", |j| format!("x{j}: Int = {j} @r{j}"))).unwrap();
+    write!(s, "type Query {{ {} {} u: U us: [U] e(v: E = V0): E a({}): Int i(i: I): Int {} }}\n",
+        seq(n, " ", |j| format!("t{j}: T{j}")), seq(n, " ", |j| format!("n{j}: N{j}")), seq(n, ", ", |j| format!("a{j}: Int = {j}")), seq(n, " ", |j| format!("s{j}: S{j}"))).unwrap();
+    write!(s, "type Mutation {{ {} }}\ntype Subscription {{ {} }}\n", seq(n, " ", |j| format!("m{j}(x: Int): Int")), seq(n, " ", |j| format!("s{j}: Int"))).unwrap();
+    for i in 0..n {
+        write!(s, "extend type Query @r{i} {{ x{i}: Int }}\nextend enum E {{ X{i} }}\nextend input I {{ y{i}: Int }}\nextend union U @r{i}\nextend interface N0 @r{i}\nextend schema @r{i}\nextend scalar S0 @r{i}\n").unwrap();
+    }
+    match sv {
+        0 => {}
+        // N objects that miss N interface fields each
+        1 => for i in 0..n { write!(s, "type M{i} implements {} {{ id: ID }}\n", seq(n, " & ", |j| format!("N{j}"))).unwrap(); },
+        // duplicate definitions of every kind
+        2 => for i in 0..n { write!(s, "type T{i} {{ z: Int }}\nscalar S{i}\ndirective @r{i} on FIELD\nenum E {{ Q{i} }}\nunion U = T{i}\ninput I {{ w{i}: Int }}\ninterface N{i} {{ id: ID }}\n").unwrap(); },
+        // duplicate members inside one definition
+        3 => { write!(s, "type D {{ {} {} }}\nenum DE {{ {} {} }}\nunion DU = {} | {}\ninput DI {{ {} {} }}\ntype DA {{ f({}, {}): Int }}\ntype DT implements {} & {} {{ id: ID f0(p: Int = 0): Int }}\ndirective @dd({}, {}) on FIELD | FIELD | QUERY | QUERY\n",
+            seq(n, " ", |j| format!("d{j}: Int")), seq(n, " ", |j| format!("d{j}: Int")), seq(n, " ", |j| format!("W{j}")), seq(n, " ", |j| format!("W{j}")),
+            seq(n, " | ", |j| format!("T{j}")), seq(n, " | ", |j| format!("T{j}")), seq(n, " ", |j| format!("d{j}: Int")), seq(n, " ", |j| format!("d{j}: Int")),
+            seq(n, ", ", |j| format!("d{j}: Int")), seq(n, ", ", |j| format!("d{j}: Int")), seq(n, " & ", |_| "N0".to_string()), seq(n, " & ", |_| "N0".to_string()),
+            seq(n, ", ", |j| format!("d{j}: Int")), seq(n, ", ", |j| format!("d{j}: Int"))).unwrap(); }
+        // undefined types / directives, N each, in every position
+        4 => { write!(s, "type UD {} {{ {} }}\nunion UU = {}\ninput UI {{ {} }}\ntype UT implements {} {{ id: ID }}\n",
+            seq(n, "", |j| format!(" @zz{j}")), seq(n, " ", |j| format!("d{j}(a: Zi{j}): Zo{j}")), seq(n, " | ", |j| format!("Zu{j}")), seq(n, " ", |j| format!("d{j}: Zi{j}")), seq(n, " & ", |j| format!("Zn{j}"))).unwrap(); }
+        // N non-null input-object cycles, N directive cycles
+        5 => for i in 0..n { write!(s, "input C{i} {{ next: C{}! self: C{i}! }}\ndirective @c{i}(a: Int @c{}) on ARGUMENT_DEFINITION\n", (i + 1) % n, (i + 1) % n).unwrap(); },
+        // wrong kinds: N non-object union members, N non-interface implements, input/output type confusion
+        6 => { write!(s, "union WU = {} | {} | E | I | U\ntype WT implements {} & U & E {{ id: ID {} }}\ninput WI {{ {} }}\n",
+            seq(n, " | ", |j| format!("N{j}")), seq(n, " | ", |j| format!("S{j}")), seq(n, " & ", |j| format!("T{j}")), seq(n, " ", |j| format!("d{j}(a: T{j}): I")), seq(n, " ", |j| format!("d{j}: T{j}"))).unwrap(); }
+        // reserved names, empty definitions
+        7 => for i in 0..n { write!(s, "type __R{i} {{ __f{i}(__a{i}: Int): Int }}\ndirective @__d{i} on FIELD\nenum __E{i} {{ __V{i} }}\ntype Empty{i}\ninput EmptyI{i}\nenum EmptyE{i}\nunion EmptyU{i}\n").unwrap(); },
+        // transitive interfaces not declared; argument / type mismatches with the interface, N each
+        8 => { for i in 0..n { write!(s, "type P{i} implements N{} {{ id: ID {} }}\n", n - 1, seq(n, " ", |j| format!("f{j}(p: String, extra{j}: Int!): String"))).unwrap(); } }
+        // invalid default values and directive arguments, N each
+        9 => { write!(s, "input BD {{ {} }}\ntype BT {{ f({}): Int {} }}\n", seq(n, " ", |j| format!("d{j}: Int = \"s{j}\"")), seq(n, ", ", |j| format!("d{j}: I = {{ {} }}", seq(n, ", ", |k| format!("q{k}: 1")))),
+            seq(n, " ", |j| format!("g{j}: Int @r{j}(a{j}: \"s\", zz{j}: 1) @o{j}(x: 1) @o{j}(x: 2)"))).unwrap(); }
+        // orphan extensions, extensions of the wrong kind
+        10 => for i in 0..n { write!(s, "extend type Orphan{i} {{ a: Int }}\nextend enum T{i} {{ A }}\nextend union E = T{i}\nextend input U {{ a{i}: Int }}\nextend interface I {{ a{i}: Int }}\nextend scalar T{i} @r0\n").unwrap(); },
+        // root operation types: wrong kinds, duplicates
+        _ => { write!(s, "extend schema {{ query: T0 }}\nextend schema {{ mutation: I subscription: U }}\nschema {{ query: Query }}\n").unwrap(); }
+    }
+    // --- document
+    let mut d = String::new();
+    let vars = |extra: &str| format!("({}, $e: E = V1, $i: I, $b: Boolean = true{extra})", seq(n, ", ", |j| format!("$v{j}: Int = {j}")));
+    let body = |k: usize| format!("a({}) {} t{k} {{ ...F{k} {} }} u {{ __typename {} }} n0 {{ id {} }} k{k}: e(v: $e) i(i: $i) i2: i(i: {{ {}, i: {{ x0: $v0 }}, l: [{{ x1: 1 }}, {{ x2: $v1 }}] }}) us @skip(if: $b) {{ ... on N{k} {{ f0 }} }}",
+        seq(n, ", ", |j| format!("a{j}: $v{j}")), seq(n, " ", |j| format!("s{j}")),
+        seq(n, " ", |j| format!("...F{j}")), seq(n, " ", |j| format!("... on T{j} {{ f{j} a{j}: f{j}(p: {j}) }}")), seq(n, " ", |j| format!("... on T{j} {{ id t{j} {{ id }} }}")),
+        seq(n, ", ", |j| format!("x{j}: {j}")));
+    let frag = |k: usize, sel: &str| format!("fragment F{k} on N{k}{} {{ id f0 {sel} }}\n", rdirs(2));
+    match dv {
+        0 | 1 | 2 | 3 | 4 | 5 | 6 | 7 | 8 | 9 => {
+            for k in 0..n {
+                let (v, b): (String, String) = match dv {
+                    // N unused variables per operation
+                    1 => (vars(&seq(n, "", |j| format!(", $unused{j}: Int"))), body(k)),
+                    // N undefined variables per operation
+                    2 => (vars(""), format!("{} und: a({})", body(k), seq(n, ", ", |j| format!("a{j}: $undefined{j}")))),
+                    // every variable defined twice
+                    3 => (vars(&seq(n, "", |j| format!(", $v{j}: Int"))), body(k)),
+                    // every argument given twice, non-repeatable directives applied twice, N times
+                    4 => (vars(""), format!("{} dup: a({}, {}) {}", body(k), seq(n, ", ", |j| format!("a{j}: 1")), seq(n, ", ", |j| format!("a{j}: 2")), seq(n, " ", |j| format!("q{j}: x{j} @o{j}(x: 1) @o{j}(x: 2) @o{}(x: 3) @o{}(x: 4)", (j + 1) % n, (j + 1) % n)))),
+                    // N unknown fields, arguments, directives, types
+                    5 => (vars(&seq(n, "", |j| format!(", $z{j}: Zt{j}"))), format!("{} {} a({}) {} {}", body(k), seq(n, " ", |j| format!("zf{j}")), seq(n, ", ", |j| format!("za{j}: $z{j}")), seq(n, " ", |j| format!("x{j} @zd{j}")), seq(n, " ", |j| format!("... on Zt{j} {{ a }}")))),
+                    // N conflicting selections of one response key; conflicting arguments
+                    6 => (vars(""), format!("{} {} {} t0 {{ {} }}", body(k), seq(n, " ", |j| format!("c: x{j}")), seq(n, " ", |j| format!("ca: a(a{j}: {j})")), seq(n, " ", |j| format!("c: f{j} ca: f0(p: {j})")))),
+                    // N values of the wrong type, object literals with N unknown and N duplicated fields, N missing required arguments
+                    7 => (vars(""), format!("{} w: a({}) wi: i(i: {{ {}, {}, {} }}) t0 {{ req r2: req({}) }}", body(k), seq(n, ", ", |j| format!("a{j}: \"s{j}\"")), seq(n, ", ", |j| format!("q{j}: 1")), seq(n, ", ", |j| format!("x{j}: 1")), seq(n, ", ", |j| format!("x{j}: \"s\"")), seq(n, ", ", |j| format!("r{j}: null")))),
+                    // N leaf fields with selections, N composite fields without, N impossible spreads, N spreads on input / scalar types
+                    8 => (vars(""), format!("{} {} {} t0 {{ {} }} {}", body(k), seq(n, " ", |j| format!("x{j} {{ id }}")), seq(n, " ", |j| format!("t{j}")), seq(n, " ", |j| format!("... on T{} {{ id }}", j + 1)), seq(n, " ", |j| format!("... on S{j} {{ id }} ... on I {{ x{j} }}")))),
+                    // N directives in the wrong location, N variables of output types, N variable usages in mismatching positions
+                    9 => (vars(&seq(n, "", |j| format!(", $o{j}: T{j}, $l{j}: [Int]"))), format!("{} {} wl: a({})", body(k), seq(n, " ", |j| format!("x{j} @deprecated @specifiedBy(url: \"u\")")), seq(n, ", ", |j| format!("a{j}: $l{j}")))),
+                    _ => (vars(""), body(k)),
+                };
+                write!(d, "query Q{k}{v}{} {{ {b} }}\n", rdirs(2)).unwrap();
+            }
+            write!(d, "mutation M($x: Int) {{ {} }}\nsubscription S {{ s0 }}\n", seq(n, " ", |j| format!("m{j}(x: $x)"))).unwrap();
+            for k in 0..n { d.push_str(&frag(k, &seq(k + 1, " ", |j| format!("g{j}: f{j}")))); }
+        }
+        // N unused fragments / N undefined fragments
+        10 => { write!(d, "{{ x0 {} }}\n", seq(n, " ", |j| format!("...Und{j}"))).unwrap(); for k in 0..n { d.push_str(&frag(k, "")); } }
+        // duplicate operation and fragment names, N each; N anonymous operations
+        11 => { for k in 0..n { write!(d, "query Q{k} {{ x{k} }}\nquery Q{k} {{ x{k} t0 {{ ...F{k} }} }}\n{{ x{k} }}\n").unwrap(); d.push_str(&frag(k, "")); d.push_str(&frag(k, "f0")); } }
+        // fragment cycles: one ring of N, N self-cycles, N two-cycles
+        12 => { write!(d, "{{ t0 {{ {} }} }}\n", seq(n, " ", |j| format!("...F{j} ...G{j} ...H{j} ...K{j}"))).unwrap();
+            for k in 0..n { write!(d, "fragment F{k} on T0 {{ id ...F{} }}\nfragment G{k} on T0 {{ ...G{k} }}\nfragment H{k} on T0 {{ t0 {{ ...K{k} }} }}\nfragment K{k} on T0 {{ ... on T0 {{ ...H{k} }} }}\n", (k + 1) % n).unwrap(); } }
+        // subscriptions with N root fields, introspection at the root, through fragments
+        13 => { write!(d, "subscription A {{ {} }}\nsubscription B {{ ...SF __typename }}\nsubscription C {{ ... {{ {} }} }}\nfragment SF on Subscription {{ {} }}\n", seq(n, " ", |j| format!("s{j}")), seq(n, " ", |j| format!("k{j}: s0")), seq(n, " ", |j| format!("s{j}"))).unwrap(); }
+        // executable definitions mixed with type-system definitions, N each
+        14 => { for k in 0..n { write!(d, "type Extra{k} {{ a: Int }}\nquery E{k} {{ x{k} }}\nextend type Query {{ more{k}: Int }}\ndirective @extra{k} on FIELD\n").unwrap(); } }
+        // N aliases of every root field, @skip/@include with variables, nested lists: valid, executed, introspected
+        15 => { write!(d, "query Big($b: Boolean = false) {{ {} __schema {{ types {{ name }} directives {{ name args {{ name }} }} }} {} }}\n",
+            seq(n, " ", |j| format!("k{j}: t{j} {{ id l {{ id {} }} u {{ __typename ... on N0 {{ f0 }} }} }}", seq(n, " ", |i| format!("a{i}: f{i}(p: {i})")))),
+            seq(n, " ", |j| format!("ty{j}: __type(name: \"T{j}\") {{ name fields {{ name args {{ name defaultValue }} }} interfaces {{ name }} possibleTypes {{ name }} }} in{j}: __type(name: \"N{j}\") {{ possibleTypes {{ name }} interfaces {{ name }} }}"))).unwrap(); }
+        // syntax errors, N of them, spread over the document
+        _ => { for k in 0..n { write!(d, "query Q{k} {{ x{k} {{ }} a(a0: ) ] }}\nfragment on T{k} {{ id }}\n").unwrap(); } }
+    }
+    (s, d)
+}
+
+/// variant index -> (schema variant, document variant): the valid schema with every document, every schema with the valid document
+pub fn multi_instance(idx: u64) -> (String, String) {
+    let n = 5;
+    let v = idx % MULTI_VARIANTS;
+    if v < 17 { multi_texts(n, 0, v) } else if v < 29 { multi_texts(n, v - 17 + 1, 0) } else {
+        // both broken at once (the document is checked against a partial schema)
+        multi_texts(n, 1 + (v - 29) % 11, 1 + (v - 29) * 3 % 16)
+    }
+}
+
 /// operations with several variables, some unused, some defined twice; also in fragments and directives
 pub fn vars_doc(rng: &mut Rng) -> (String, String) {
     let schema = "type Query { f(a: Int, b: Int, c: Int): Int q: Query }\ndirective @d(x: Int) on FIELD | QUERY | FRAGMENT_SPREAD | INLINE_FRAGMENT | FRAGMENT_DEFINITION".to_string();
@@ -320,6 +469,13 @@ fn smith_base(rng: &mut Rng) -> String {
     s
 }
 
+/// `apollo_smith::Document::try_from` panics ("object type definition must have fields definition") on an object or
+/// interface definition / extension without a fields block (valid GraphQL, e.g. `extend interface N0 @d`): a defect of
+/// apollo-smith outside this property (it is deterministic); such lines are left out of the existing document.
+/// A self-referential input object makes apollo-smith recurse without bound (known finding of C32): the input object
+/// of the existing document loses its self references.
+fn smith_ok(schema: &str) -> String { schema.replace(" i: I l: [I!] }", " }").lines().filter(|l| !(l.starts_with("extend interface") && !l.contains('{'))).collect::<Vec<_>>().join("\n") }
+
 fn smith_outputs(bytes: &[u8], base: Option<&str>) -> String {
     use apollo_smith::DocumentBuilder;
     use arbitrary::Unstructured;
@@ -347,6 +503,7 @@ pub fn input(plan: Plan, kind: &str, idx: u64) -> Input {
         "soup" => { let (s, d) = crate::p21::soup_instance(plan.seed, idx); Input::Compiler(s, d) }
         "vars" => { let (s, d) = vars_doc(&mut rng); Input::Compiler(s, d) }
         "exec" => { let (s, d) = exec_doc(&mut rng); Input::Compiler(s, d) }
+        "multi" => { let (s, d) = multi_instance(idx); Input::Compiler(s, d) }
         "family" => {
             let f = crate::p21::FAMILIES[(idx as usize) % crate::p21::FAMILIES.len()];
             let n = [3usize, 40, 110, 140][(idx as usize / crate::p21::FAMILIES.len()) % 4];
@@ -355,13 +512,19 @@ pub fn input(plan: Plan, kind: &str, idx: u64) -> Input {
         _ => {
             let len = 64 + rng.below(2000);
             let bytes: Vec<u8> = (0..len).map(|_| rng.next() as u8).collect();
-            let base = if rng.chance(1, 2) { Some(smith_base(&mut rng)) } else { None };
+            // existing documents: none / a random `implements` graph / the "five of everything" schema (several
+            // members in every collection apollo-smith keeps about an existing document), without operations
+            let base = match rng.below(8) {
+                0 | 1 | 2 => None,
+                3 | 4 | 5 => Some(smith_base(&mut rng)),
+                _ => Some(smith_ok(&multi_texts(3 + rng.below(3), 0, 0).0)),
+            };
             Input::Smith(bytes, base)
         }
     }
 }
 
-fn kinds(plan: Plan) -> Vec<(&'static str, u64)> { vec![("family", 48), ("vars", plan.vars), ("exec", exec_count(plan)), ("soup", plan.soups), ("smith", plan.smith)] }
+fn kinds(plan: Plan) -> Vec<(&'static str, u64)> { vec![("multi", MULTI_VARIANTS), ("family", 48), ("vars", plan.vars), ("exec", exec_count(plan)), ("soup", plan.soups), ("smith", plan.smith)] }
 
 /// `VH_C22_CHILD=seed:soups:vars:smith`
 pub fn child_main(spec: &str) {
